@@ -40,7 +40,8 @@ def parseKind (s : String) : Option Kind :=
 
 def showKind (k : Kind) : String := String.ofList k.name
 
-/-- one entry `kind:exprhex=resulthex` or `kind:exprhex=!` (make failed) -/
+/-- one entry `kind:exprhex=resulthex` or `kind:exprhex=!` (make failed); for `escaped` the text is
+    the one after the ` (no-eol)` strip and the result that of `apply_escaped_filter_bytes` -/
 def parseMkEntry (s : String) : Option ((Kind × List Char) × Option (List UInt8)) :=
   match s.splitOn "=" with
   | [lhs, rhs] =>
@@ -84,7 +85,7 @@ def mkMissing (tbl : MkTable) (l : List Char) : Bool :=
   match extract unicodeWhite l with
   | .ok (e, k, _) =>
     match lookupKind k with
-    | some kind => needsMk kind && (tbl.lookup (kind, e)).isNone
+    | some kind => needsMk kind && (tbl.lookup (kind, if kind == .escaped then stripNoEol e else e)).isNone
     | none => false
   | .error _ => false
 
